@@ -327,6 +327,20 @@ func longStreams() []Stream {
 		Stream{Name: "long-lib-xz-rawtail", Fmt: "xz", Data: mustLibXZ(XZCfg{DictCap: 4096, Check: 1}, rawtail, 3000), Plain: rawtail, Writer: "lib"},
 		Stream{Name: "long-lib-lzma2-rawonly", Fmt: "lzma2", Data: mustLibLZMA2(L2Cfg{DictCap: 4096}, rawonly, []L2Step{{"w", 2500}, {"f", 0}, {"w", 2500}, {"f", 0}, {"w", 2500}, {"f", 0}}), Plain: rawonly, DictSize: 4096, Writer: "lib"},
 	)
+	// uncompressed chunks larger than the reader's dictionary (legal: the chunk size limit does not
+	// depend on the dictionary size): the reader refills its ring buffer in the middle of one Read
+	{
+		g := ref.NewLZMA2Gen()
+		g.Add(ref.ChunkSpec{Kind: ref.CRawReset, Raw: randBytes(58, 10000)})
+		g.Add(ref.ChunkSpec{Kind: ref.CRaw, Raw: randBytes(59, 7001)})
+		g.Add(ref.ChunkSpec{Kind: ref.CLZMAProps, Ops: greedyOps(text[:300], 0), Props: ref.Props{LC: 3, LP: 0, PB: 2}})
+		g.Add(ref.ChunkSpec{Kind: ref.CRaw, Raw: randBytes(60, 4099)})
+		g.Add(ref.ChunkSpec{Kind: ref.CEnd})
+		out = append(out,
+			Stream{Name: "long-ref-lzma2-bigraw", Fmt: "lzma2", Data: g.Out, Plain: g.Plain, DictSize: 4096, Writer: "ref"},
+			Stream{Name: "long-ref-xz-bigraw", Fmt: "xz", Data: ref.EncodeXZStream(ref.CheckCRC32, []ref.XZBlockSpec{{LZMA2: g.Out, Plain: g.Plain, DictCode: 0}}), Plain: g.Plain, Writer: "ref"},
+		)
+	}
 	out = append(out,
 		Stream{Name: "long-lib-xz-2blocks", Fmt: "xz", Data: mustLibXZ(XZCfg{DictCap: 4096, BlockSize: 7000, Check: 1}, text), Plain: text, Writer: "lib"},
 		Stream{Name: "long-lib-lzma2-mixed", Fmt: "lzma2", Data: mustLibLZMA2(L2Cfg{DictCap: 4096}, mix, []L2Step{{"w", 6000}, {"f", 0}}), Plain: mix, DictSize: 4096, Writer: "lib"},
